@@ -5,10 +5,25 @@ import itertools
 from lib import gN, gbool, glist, gopt, hexs, bspec_in, bspec_obs, lcg_bytes
 
 HEADER = "From CJ Require Import Common.Base C16.Model C16.Run.\n"
-DRV = {"zz_verif_common_test.go": "c16/common_driver_test.go"}
+DRV = {"zz_verif_common_test.go": "c16/common_driver_test.go", "zz_verif_shim_test.go": "c16/shim_driver_test.go"}
 
 E_EOS, E_CLOSED, E_SHORT = 1, 2, 3
 E_HANG, E_PANIC = 98, 97
+
+
+def driver_failed(ctx, what, out):
+    """the Go driver gave no results: say whether it did not even compile against the tree under test"""
+    import re
+    out = out or ""
+    if "[build failed]" in out or re.search(r"\.go:\d+:\d+: ", out):
+        if not getattr(ctx, "_c16_compile_reported", False):
+            ctx._c16_compile_reported = True
+            errs = [l for l in out.splitlines() if re.search(r"\.go:\d+:\d+: ", l)][:6]
+            ctx.broken("driver-compile", "in-package driver no longer compiles against the tree under test: %s; this says nothing "
+                       "about conjure's behaviour (unexported names the drivers use were changed: adapt harness/inpkg/c16, "
+                       "field accesses are all in shim_driver_test.go)" % " | ".join(errs or [out[-400:]]))
+        return
+    ctx.broken("driver", "%s did not produce results: %s" % (what, out[-800:]))
 
 
 def corpus_cases(key):
@@ -205,7 +220,7 @@ def run_reads(ctx):
                                {"d": m["d"].hex(), "e": -1 if m["e"] is None else m["e"]}) for m in c["script"]]})
     res, out = yield ("go", "read", js)
     if res is None or len(res) != len(cases):
-        ctx.broken("driver", "Go read driver did not produce results: %s" % out[-800:])
+        driver_failed(ctx, "Go read driver", out)
         return
     terms = []
     for c, j, r in zip(cases, js, res):
@@ -309,7 +324,7 @@ def run_fc(ctx):
     js = [{"ops": [{"op": o, "n": n} for o, n in c]} for c in cases]
     res, out = yield ("go", "fc", js)
     if res is None or len(res) != len(cases):
-        ctx.broken("driver", "Go flow-control driver did not produce results: %s" % out[-800:])
+        driver_failed(ctx, "Go flow-control driver", out)
         return
     terms = []
     for c, r in zip(cases, res):
@@ -417,7 +432,7 @@ def run_hbq(ctx):
            "script": [{"d": m["d"].hex(), "e": -1 if m["e"] is None else m["e"]} for m in c["script"]]} for c in cases]
     res, out = yield ("go", "hbq", js)
     if res is None or len(res) != len(cases):
-        ctx.broken("driver", "Go heartbeat-queue driver did not produce results: %s" % out[-800:])
+        driver_failed(ctx, "Go heartbeat-queue driver", out)
         return
     terms = []
     for c, r in zip(cases, res):
@@ -471,7 +486,7 @@ def run_hbq(ctx):
 def run_hbb(ctx):
     res, out = yield ("go", "hbb", [1])
     if not res:
-        ctx.broken("driver", "Go heartbeat-bypass driver did not produce results: %s" % out[-500:])
+        driver_failed(ctx, "Go heartbeat-bypass driver", out)
         return
     r = res[0]
     ctx.count(("hbb",), nontrivial=r["heartbeats"] > 0, kind="fc/heartbeat-bypass-observed")
@@ -490,7 +505,7 @@ def run_win(ctx):
     iters = 100000 if ctx.tier == "quick" else 1000000
     res, out = yield ("go", "win", [{"iters": iters}])
     if not res:
-        ctx.broken("driver", "Go read-window driver did not produce results: %s" % out[-500:])
+        driver_failed(ctx, "Go read-window driver", out)
         return
     r = res[0]
     ctx.count(("win", iters), nontrivial=r["complete"] > 0, kind="hbq/window-search")
@@ -570,7 +585,7 @@ def run_wd(ctx):
     def go(cs):
         rc, out, res = ctx.go_inpkg(".", "pkg/dtls", files, "^TestVerifC16Watchdog$", cs, timeout=300)
         if res is None or len(res) != len(cs):
-            ctx.broken("driver", "Go watchdog driver did not produce results: %s" % out[-800:])
+            driver_failed(ctx, "Go watchdog driver", out)
             return None
         return res
     res = go(cases)
@@ -697,7 +712,7 @@ def run_reg(ctx):
                    "ops": [{"op": o, "t": t} for o, t in c["ops"]]})
     res, out = yield ("go", "reg", js)
     if res is None or len(res) != len(cases):
-        ctx.broken("driver", "Go registry driver did not produce results: %s" % out[-800:])
+        driver_failed(ctx, "Go registry driver", out)
         return
     terms = []
     for c, j, r in zip(cases, js, res):
@@ -787,7 +802,7 @@ def run_mat(ctx):
         cases = replay_cases(ctx, "mat_cases")
     res, out = yield ("go", "mat", cases)
     if res is None or len(res) != len(cases):
-        ctx.broken("driver", "Go key-material driver did not produce results: %s" % out[-800:])
+        driver_failed(ctx, "Go key-material driver", out)
         return
     terms = []
     hellos = {}
@@ -921,7 +936,7 @@ def run_lb(ctx):
             ctx.fail("loopback/data-race", "go test -race reports a data race in pkg/dtls under concurrent Accept/Dial",
                      {"race_report": out[out.index("WARNING: DATA RACE"):][:1500]})
         if res is None or len(res) != len(cs):
-            ctx.broken("driver", "Go loopback driver did not produce results: %s" % out[-800:])
+            driver_failed(ctx, "Go loopback driver", out)
             return None
         return res
     res = go(cases)
@@ -1045,7 +1060,7 @@ def run(ctx):
                 local = [i - offs[n] for i in mm if offs[n] <= i < offs[n] + len(want_coq[n])]
             advance(n, local if local is not None else [])
     ctx.cov["timing_s"]["coq-evaluation"] = round(time.time() - t0, 1)
-    if not only:
+    if not only and not getattr(ctx, "_c16_compile_reported", False):
         ctx.require_kinds(["read/data-equals-heartbeat", "fc/has-stale-token", "fc/has-blocked", "fc/has-limit",
                            "fc/has-closed-while-blocked", "reg/has-delivered", "reg/has-dup", "reg/has-cancelled",
                            "lb/has-dup-refused", "wd/closed", "wd/open", "mat/from-secret-concrete-hkdf",
